@@ -233,6 +233,11 @@ def run(ctx):
             brk.append([paths.rel(init, c, pol, subst=False) for (s0, d0, c, pol) in init.cfg.cond_edges() if d0 == paths.pos_of(init, b)[0]])
         sig.append(({k_: v for k_, v in vs.items() if k_ in ("lobyx", "k")}, dec, brk))
     ctx.check(r6, len(sig) == 2 and sig[0] == sig[1] and "k" in sig[0][0] and sig[0][1], key(init, "passes"), init.where(init.root), "sizing pass %s differs from filling pass %s" % (sig[0] if sig else None, sig[1] if len(sig) > 1 else None), str(sig[0]) if sig else "")
+    # the entry is rounded to the shift, not truncated: (int)(x + 0.5 * 2^shift) >> shift in both passes
+    kin = [init.canon(init.ch(v)[0]) for l in loops for v in init.find("Var", root=l) if init.nodes[v]["name"] == "k" and init.ch(v)]
+    kin += [init.canon(s_["rhs"]) for s_ in paths.stores(init) if s_["path"] == "k" and s_["op"] == "=" and s_["rhs"] is not None]
+    okround = len(kin) >= 2 and all((re.search(r"\(0\.5 \* \(1 << (lmath->t\.)?shift\)\) \+ ", k_) or re.search(r"\(\(1 << (lmath->t\.)?shift\) \* 0\.5\) \+ ", k_) or re.search(r"\+ \((0\.5 \* \(1 << (lmath->t\.)?shift\)|\(1 << (lmath->t\.)?shift\) \* 0\.5)\)", k_)) and re.search(r">> (lmath->t\.)?shift\)$", k_) and "log(" in k_ and "inv_log_of_base" in k_ for k_ in kin)
+    ctx.check(r6, okround, key(init, "entry-rounding"), init.where(init.root), "table entries are computed as %s: each entry must be log(1 + b^-i) in the table's base, rounded to the shift (+ 0.5 * 2^shift before the shift); truncating makes log-add up to a full unit low for half of all differences" % kin[:2])
     resets = [s for s in paths.stores(init) if s["path"] == "byx" and s["op"] == "=" and init.canon(s["rhs"], subst=False) == "1"]
     ctx.check(r6, len(resets) == 2, key(init, "byx-reset"), init.where(init.root), "byx is not reset to 1.0 before each pass")
     idxs = set(init.canon(init.ch(s)[1]) for (s, w) in table_subscripts(init))     # a hoisted `idx = i >> shift` reads the same
